@@ -1,5 +1,5 @@
 // C01 - all VM configurations compute the same hash.
-// Complete configuration lattice: 6 cache configurations ({default,JIT} x {ref,SSSE3,AVX2}; the JIT bit also
+// Complete configuration lattice: 8 cache configurations ({default,JIT} x {ref,SSSE3,AVX2,both bits}; the JIT bit also
 // selects the compiled or the interpreted dataset initialiser) x 12 VM flag sets (6 light sets on each cache,
 // 6 fast sets on a dataset built from each cache) x {v1,v2}, crossed with key / input alphabets.
 // Oracle: all digests of one (key,input,version) are equal, and equal to the specification model's digest.
@@ -24,14 +24,15 @@ static spec::Params P() { std::string p = RX_PROFILE; return p == "mini" ? spec:
 static const bool small = std::string(RX_PROFILE) == "mini";
 
 struct CacheCfg { int flags; const char* name; };
-static const CacheCfg CC[6] = {
+static const CacheCfg CC[8] = {
 	{ RANDOMX_FLAG_DEFAULT, "cache-ref" }, { RANDOMX_FLAG_ARGON2_SSSE3, "cache-ssse3" }, { RANDOMX_FLAG_ARGON2_AVX2, "cache-avx2" },
 	{ RANDOMX_FLAG_JIT, "cachejit-ref" }, { RANDOMX_FLAG_JIT | RANDOMX_FLAG_ARGON2_SSSE3, "cachejit-ssse3" }, { RANDOMX_FLAG_JIT | RANDOMX_FLAG_ARGON2_AVX2, "cachejit-avx2" },
+	{ RANDOMX_FLAG_ARGON2, "cache-argon2mask" }, { RANDOMX_FLAG_JIT | RANDOMX_FLAG_ARGON2, "cachejit-argon2mask" },   // both implementation bits set (the documented mask value, also what a caller gets by OR-ing)
 };
 
 struct World {   // everything that depends on the key
-	std::string key;
-	randomx_cache* cache[6] = {}; randomx_dataset* ds[6] = {};
+	std::string key; bool single_call_compiled = false;
+	randomx_cache* cache[8] = {}; randomx_dataset* ds[8] = {};
 	struct V { randomx_vm* vm; std::string name; bool born_v2; }; std::vector<V> vms;   // born_v2: created with RANDOMX_FLAG_V2 (the public way to select v2), used for v2 cases only, never switched
 	spec::Cache sc;
 	std::string build(const std::vector<int>& cache_ids, const std::vector<int>& ds_ids, int threads) {
@@ -44,7 +45,7 @@ struct World {   // everything that depends on the key
 			ds[c] = randomx_alloc_dataset((randomx_flags)LP);
 			if (!ds[c]) return "randomx_alloc_dataset failed";
 			unsigned long n = randomx_dataset_item_count();
-			if (threads <= 1) randomx_init_dataset(ds[c], cache[c], 0, n);
+			if (threads <= 1 || (single_call_compiled && c == 5)) randomx_init_dataset(ds[c], cache[c], 0, n);   // ONE call of the compiled initialiser for >= 2^25 items (production geometry, thorough tier): see C08
 			else {
 				std::vector<std::thread> th; unsigned long per = n / threads;
 				for (int t = 0; t < threads; ++t) { unsigned long b = per * t, cnt = (t == threads - 1) ? n - b : per; th.emplace_back([=] { randomx_init_dataset(ds[c], cache[c], b, cnt); }); }
@@ -100,7 +101,7 @@ int main(int argc, char** argv) {
 	std::vector<size_t> lens = alph::input_lengths(th, false);
 	if (small) { lens.clear(); for (size_t i = 0; i <= (th ? 300u : 40u); ++i) lens.push_back(i); for (size_t x : { 63u, 64u, 65u, 127u, 128u, 129u, 255u, 256u, 1000u }) if (x > (th ? 300u : 40u)) lens.push_back(x); }
 	else { keys = th ? std::vector<std::string>{ "test key 000", alph::pattern(61, 2) } : std::vector<std::string>{ "test key 000" }; if (!th) lens = { 0, 64, 76, 129 }; }
-	std::vector<int> all6 = { 0, 1, 2, 3, 4, 5 };
+	std::vector<int> all6 = { 0, 1, 2, 3, 4, 5, 6, 7 };   // (name kept) all cache configurations
 	std::vector<int> ds_ids = small ? all6 : (th ? std::vector<int>{ 0, 5 } : std::vector<int>{ 5 });   // full: compiled initialiser (and interpreted in thorough)
 
 	if (!args.replay.empty()) {
@@ -139,7 +140,7 @@ int main(int argc, char** argv) {
 		}, true, 3600);
 	} else {
 		for (auto& key : keys) {
-			World w; w.key = key;
+			World w; w.key = key; w.single_call_compiled = th;
 			std::string d = w.build(all6, ds_ids, 16); if (d.empty()) d = w.make_vms(all6, ds_ids);
 			w.sc.p = P(); w.sc.init(key.data(), key.size());
 			if (!d.empty()) { vf::Violation v; v.key = "c01:setup"; v.what = d; v.replay = case_json(key, "", false); total.viol.push_back(v); break; }
@@ -160,7 +161,7 @@ int main(int argc, char** argv) {
 	vf::Evidence ev; ev.level = "exploration";
 	ev.coverage.set("evaluations", (unsigned long long)total.n["hashes"]).set("distinct_nontrivial", (unsigned long long)total.n["cases"])
 		.set("exhaustive", !total.incomplete)
-		.set("rule", std::string("profile ") + RX_PROFILE + ": every (key,input,version) of the alphabets is hashed by every configuration of the lattice (light flag sets x 6 cache configurations, fast flag sets x datasets built by the compiled/interpreted initialiser of those caches; for v2 every configuration twice: a VM created with RANDOMX_FLAG_V2 and a VM switched to v2 after creation); all digests must be equal and equal to the specification model. evaluations = hashes, distinct = (key,input,version) cases; configurations per case in counters")
+		.set("rule", std::string("profile ") + RX_PROFILE + ": every (key,input,version) of the alphabets is hashed by every configuration of the lattice (light flag sets x 8 cache configurations incl. both Argon2 bits set, fast flag sets x datasets built by the compiled/interpreted initialiser of those caches; for v2 every configuration twice: a VM created with RANDOMX_FLAG_V2 and a VM switched to v2 after creation); all digests must be equal and equal to the specification model. evaluations = hashes, distinct = (key,input,version) cases; configurations per case in counters")
 		;
 #ifdef RX_LARGEPAGES
 	ev.assumptions = { "this part runs every cache, dataset and VM with RANDOMX_FLAG_LARGE_PAGES; the sandbox has no huge pages, so the harness-owned mmap answers MAP_HUGETLB requests with ordinary pages (the library's large-page classes and allocator code are the real ones)" };
